@@ -49,7 +49,56 @@ class C04(fw.Prop):
     level_note = "Trusted: Lean kernel (+propext, Classical.choice, Quot.sound), ideal-AEAD abstraction, C01, the harness."
     chunk = 2000
 
+    def ctor_case(self, d):
+        """clients built through the alternative constructors protect with exactly the configured parameters: the first APDU
+        a client sends (the AARQ) carries the configured title and its initiate request opens under the configured keys,
+        suite and counter."""
+        def impl():
+            import serial
+            from dlms_cosem import enumerations as en, security
+            from dlms_cosem.clients.dlms_client import DlmsClient
+            from dlms_cosem.protocol import acse, xdlms
+            klen = 32 if d["suite"] == 2 else 16
+            ek, ak, title = cl.key_bytes(1, klen), cl.key_bytes(2, klen), bytes.fromhex(d["title"])
+            kw = dict(client_logical_address=16, server_logical_address=1, encryption_key=ek, authentication_key=ak, security_suite=d["suite"],
+                      client_system_title=title, client_initial_invocation_counter=d["cic"], meter_initial_invocation_counter=d["mic"],
+                      authentication_method=en.AuthenticationMechanism.HLS_GMAC, max_pdu_size=d["maxpdu"])
+            real = serial.Serial
+            serial.Serial = lambda *a, **k: None
+            try:
+                if d["via"] == "tcp":
+                    c = DlmsClient.with_tcp_transport(host="localhost", port=4059, **kw)
+                elif d["via"] == "serial":
+                    c = DlmsClient.with_serial_hdlc_transport(serial_port="x", server_physical_address=17, **kw)
+                else:
+                    c = DlmsClient(io_interface=None, **kw)
+            finally:
+                serial.Serial = real
+            wire = c.dlms_connection.send(c.dlms_connection.get_aarq())
+            a = acse.ApplicationAssociationRequest.from_bytes(bytes(wire))
+            g = a.user_information.content
+            problems = []
+            if bytes(a.system_title or b"") != title:
+                problems.append(f"title-in-aarq:{bytes(a.system_title or b'').hex()}")
+            if not isinstance(g, xdlms.GlobalCipherInitiateRequest):
+                problems.append("initiate-request-not-ciphered")
+            else:
+                if g.security_control.to_bytes()[0] != 0x30 + d["suite"] or g.invocation_counter != d["cic"]:
+                    problems.append(f"sc/counter:{g.security_control.to_bytes()[0]}/{g.invocation_counter}")
+                try:
+                    plain = security.decrypt(g.security_control, title, d["cic"], ek, g.ciphered_text, ak)
+                    if xdlms.InitiateRequest.from_bytes(bytes(plain)).client_max_receive_pdu_size != d["maxpdu"]:
+                        problems.append("max-pdu-size")
+                except Exception as e:  # noqa
+                    problems.append("does-not-open-under-the-configured-parameters:" + type(e).__name__)
+            if c.dlms_connection.meter_invocation_counter != d["mic"]:
+                problems.append("meter-counter")
+            return "ok ctor" + ("" if not problems else " " + ",".join(problems))
+        return fw.Case("echo ctor", impl, "prop", d, tags=("constructor-" + d["via"],))
+
     def make_case(self, d):
+        if d.get("via"):
+            return self.ctor_case(d)
         lines, impl = cl.run_history(d["cfg"], d["ops"])
         orc = oracle_factory(d["cfg"])
         return fw.Case(lines, (lambda: impl(orc)), "split", d, tags=(d.get("tag", "x"), f"suite{d['cfg']['suite']}"))
@@ -85,6 +134,10 @@ class C04(fw.Prop):
                             b = q.to_state(st)
                             plain_in = ["recv", ["ard", "0", "mal1"], None] if k == "actRespData" else ["recv", ["s", k], None]
                             yield self.make_case({"cfg": cfg.to_json(), "ops": b + [plain_in], "tag": "plain-answer"})
+        for via in ("direct", "tcp", "serial"):
+            for suite in (0, 1, 2):
+                yield self.make_case({"via": via, "suite": suite, "title": "48455741" + "%08x" % rng.getrandbits(32), "cic": rng.choice([0, 7, 2 ** 31]),
+                                      "mic": rng.choice([0, 9]), "maxpdu": rng.choice([500, 65535])})
         for size in sizes:
             cfg = cl.Cfg(ek=(1, 16), ak=(2, 16), pre=True, state="READY", meter_title=MT, cic=5)
             yield self.make_case({"cfg": cfg.to_json(), "ops": [["send", "setReq", 1, size]], "tag": "payload-size"})
